@@ -124,6 +124,7 @@ type Path struct {
 	inExists   bool
 	actor      int
 	foot       *footprint
+	blobs      []gobBlob
 	funcs      map[string]bool
 }
 
